@@ -10,7 +10,7 @@ import random
 from vmon import env  # noqa: F401
 from vmon.simkit import Top, Mon, simulate, bits, biased_bits
 
-from amaranth import Value, unsigned, signed
+from amaranth import Shape, Value, unsigned, signed
 from amaranth.lib import enum as am_enum
 
 from amaranth_soc import csr
@@ -48,11 +48,15 @@ def mk_shape(desc):
         return unsigned(w)
     if kind == "s":
         return signed(w)
+    if kind == "r":
+        return range(w[0], w[1])
     return SHAPES[kind]
 
 
 def shape_width(desc):
     kind, w = desc
+    if kind == "r":
+        return Shape.cast(range(w[0], w[1])).width
     return {"e2": 2, "e3": 3}.get(kind, w)
 
 
@@ -67,14 +71,19 @@ def gen_case(rng, tier, idx):
         shape = ("u", rng.choice([31, 32, 33, 63, 64, 65, 96, 128, 129]))
     elif r < 0.6:
         shape = ("u", rng.choice([0, 1, 1, 2, 2, 3, 3, 4, 5, 6, 7, 8]))
-    elif r < 0.8:
+    elif r < 0.74:
         shape = ("s", rng.randint(1, 8))
+    elif r < 0.8:
+        # a Python range containing 0 (so that the documented default init of 0 is legal), often with a negative start
+        shape = ("r", [rng.choice([0, -1, -2, -4, -5, -8]), rng.choice([1, 2, 3, 4, 8, 9])])
     else:
         shape = (rng.choice(["e2", "e3"]), 0)
     w = shape_width(shape)
     init = rng.getrandbits(w) if w else 0
     if shape[0] == "e3":
         init = rng.choice([0, 5, 7])
+    if shape[0] == "r":
+        init = rng.randrange(shape[1][0], shape[1][1]) & ((1 << w) - 1)
     case = {"action": act, "shape": list(shape), "init_bits": init if rng.random() < 0.8 else 0,
             "cycles": (200 if tier == "quick" else 600) * (10 if rng.random() < 0.04 else 1)}
     if act == "RES":
@@ -87,6 +96,9 @@ def init_value(desc, init_bits):
     kind, w = desc
     if kind == "s":
         return init_bits - (1 << w) if init_bits >> (w - 1) else init_bits
+    if kind == "r":
+        wid = shape_width(desc)
+        return init_bits - (1 << wid) if (w[0] < 0 and init_bits >> (wid - 1)) else init_bits
     if kind in SHAPES:
         return SHAPES[kind](init_bits)
     return init_bits
@@ -124,6 +136,16 @@ def run_case(case):
     mon = Mon()
     if shared_desc:
         mon.count("actions_from_a_shared_field_description")
+    if act in ("RW", "RW1C", "RW1S") and hasattr(dut, "init"):
+        # what the action reports as its initial value is the value it was given (modulo 2**width: a normalised
+        # representation is fine) - callers build shadows and documentation from it
+        try:
+            rep = int(dut.init)
+        except Exception:
+            rep = None
+        if rep is not None:
+            mon.run(lambda: mon.ok("reported_init", (rep - init_bits) % (1 << w) == 0 if w else True,
+                                   f"{act}({shape!r}, init={init_value(desc, init_bits)!r}).init reports {dut.init!r}"))
     st = {"storage": init_bits, "nontrivial": False, "compared": 0}
 
     def get(ctx, sig):
